@@ -105,6 +105,9 @@ def _mc_post(ctx, res, c1, c2):
     return isinstance(res, type) and res in wider(c1, c2)
 C('moduint.maxcast', pre=_mc_pre, post=_mc_post, result=_mc_result)
 
+def _concrete(v):
+    return isinstance(v, int) and not isinstance(v, bool) and not is_sym(v)
+
 # binary operators -----------------------------------------------------------------------------
 def _bin(sym, reflected=False, extra_pre=None):
     f = OP(sym)
@@ -115,6 +118,14 @@ def _bin(sym, reflected=False, extra_pre=None):
         return p
     def result(ctx, self, y):
         k = ctx.choose(wider(cls_of(self), y))
+        a, b = self.arg, val(y)
+        if _concrete(a) and _concrete(b):
+            # both operands are concrete integers: exactly one value satisfies the postcondition; keep it concrete (an enumerated
+            # rotate count stays a number through `r %= op_size`, `op_size - r`)
+            try:
+                return ctx.new(k, arg=norm(k, f(b, a) if reflected else f(a, b)))
+            except Exception:
+                pass
         return ctx.new(k, arg=ctx.fresh_int('res'))
     def post(ctx, res, self, y):
         if not is_fixed(res):
